@@ -31,7 +31,7 @@ import (
 )
 
 // host of a host:port as the STATEMENT means it: an IPv6 literal in brackets is the host;
-// otherwise the text before the first ':' (the whole string when there is no port)
+// otherwise the text before the ':' of the port (the whole string when there is no port)
 func c15rsHost(hp string) string {
 	if strings.HasPrefix(hp, "[") {
 		if i := strings.Index(hp, "]:"); i > 0 {
@@ -44,18 +44,6 @@ func c15rsHost(hp string) string {
 type c15rsReq struct {
 	rs    *tchannel.RequestState
 	tried []string
-}
-
-// does the code's host function differ from the statement's on any of these strings?
-func c15rsIPv6(sets ...[]string) bool {
-	for _, s := range sets {
-		for _, x := range s {
-			if c15Host(x) != c15rsHost(x) {
-				return true
-			}
-		}
-	}
-	return false
 }
 
 func c15rsSetOf(m map[string]struct{}) []string {
@@ -132,14 +120,10 @@ func c15rsJudgeSet(prev map[string]struct{}, tried []string) string {
 	return ""
 }
 
-func (cs *c15Case) failTagged(ipv6 bool, msg string) {
-	if msg == "" {
-		return
+func (cs *c15Case) failMsg(msg string) {
+	if msg != "" {
+		cs.fail("%s", msg)
 	}
-	if ipv6 {
-		msg = "[c15:ipv6-host] " + msg + " (getHost cuts at the first ':', so every bracketed IPv6 host:port has host \"[\")"
-	}
-	cs.fail("%s", msg)
 }
 
 // opAttempt: one attempt of the request on list j.  Returns the peer selected ("" on error).
@@ -155,7 +139,6 @@ func (cs *c15Case) opAttempt(j int, rq *c15rsReq, getNew bool, d int64) string {
 		members = append(members, k)
 	}
 	sort.Strings(members)
-	ipv6 := c15rsIPv6(members, rq.tried)
 
 	prev := rq.rs.PrevSelectedPeers()
 	setV := c15rsJudgeSet(prev, rq.tried) // reported after the selection it may have misled
@@ -178,7 +161,7 @@ func (cs *c15Case) opAttempt(j int, rq *c15rsReq, getNew bool, d int64) string {
 			if setV != "" {
 				selV += "; " + setV
 			}
-			cs.failTagged(ipv6, selV)
+			cs.failMsg(selV)
 		}
 		rq.rs.AddSelectedPeer(res) // Peer.BeginCall's first statement
 		rq.tried = append(rq.tried, res)
@@ -206,14 +189,14 @@ func (cs *c15Case) opAttempt(j int, rq *c15rsReq, getNew bool, d int64) string {
 		cs.obs = append(cs.obs, 7, 0, int64(l.src.used), 0)
 		cs.fail("selection returned (%v, %v)", p, err)
 	}
-	cs.failTagged(ipv6, setV)
+	cs.failMsg(setV)
 	cs.finishOp(j)
 	after := c15rsSetOf(rq.rs.PrevSelectedPeers())
 	cs.obs = append(cs.obs, int64(len(after)))
 	for _, k := range after {
 		cs.obs = putBytes(cs.obs, []byte(k))
 	}
-	cs.failTagged(c15rsIPv6(rq.tried), c15rsJudgeSet(rq.rs.PrevSelectedPeers(), rq.tried))
+	cs.failMsg(c15rsJudgeSet(rq.rs.PrevSelectedPeers(), rq.tried))
 	return res
 }
 
@@ -247,6 +230,46 @@ func engineReqSel(rng *rand.Rand, n int, tier string, o *Out) {
 		o.Oracle("reqsel-nil", "nil", false, "nil", verdict)
 	}
 
+	// bracketed IPv6 host:ports: [::1]:1 and [::1]:2 share the host "[::1]", [::2]:1 is on another
+	// host.  The siblings rank ahead (custom scores 0 0 9); whichever [::1] peer the first attempt
+	// gets, the second must leave the host for [::2]:1 and the third falls back to the sibling; the
+	// set handed to selection holds "[::1]" (never "[").  Both for the channel's list and an isolated one.
+	for j := 0; j < 2; j++ {
+		cs := newC15Case(fmt.Sprintf("c15-rs-ipv6-%d", j), 1, o)
+		x1, x2, y1 := "[::1]:1", "[::1]:2", "[::2]:1"
+		cs.opSetStrategy(j, 3)
+		for _, hp := range []string{x1, x2, y1} {
+			cs.opAdd(j, hp, raw(), raw())
+		}
+		cs.opSetLoad(x1, c15Load{in: 1, custom: 0})
+		cs.opSetLoad(x2, c15Load{in: 1, custom: 0})
+		cs.opSetLoad(y1, c15Load{in: 1, custom: 9})
+		rq := cs.opNewRequest()
+		p1 := cs.opAttempt(j, rq, false, raw())
+		p2 := cs.opAttempt(j, rq, false, raw())
+		p3 := cs.opAttempt(j, rq, false, raw())
+		if p1 != x1 && p1 != x2 {
+			cs.fail("IPv6: attempt 1 got %q, the two lowest-score peers are %q and %q", p1, x1, x2)
+		}
+		if p2 != y1 {
+			cs.fail("IPv6: attempt 1 got %q; attempt 2 got %q although %q is the only peer on a host not tried yet (host of %q is \"[::1]\")", p1, p2, y1, p1)
+		}
+		if p3 == p1 || (p3 != x1 && p3 != x2) {
+			cs.fail("IPv6: attempts got %q, %q, then %q; the third should be the untried sibling on [::1]", p1, p2, p3)
+		}
+		prev := rq.rs.PrevSelectedPeers()
+		if _, bad := prev["["]; bad {
+			cs.fail("IPv6: the request's set %v holds \"[\" as a host", c15rsSetOf(prev))
+		}
+		for _, h := range []string{"[::1]", "[::2]"} {
+			if _, ok := prev[h]; !ok {
+				cs.fail("IPv6: the request's set %v lacks the host %q", c15rsSetOf(prev), h)
+			}
+		}
+		o.Hist("ipv6-exact")
+		cs.done("reqsel", fmt.Sprintf("ipv6-%d", j), true)
+	}
+
 	for c := 0; c < n; c++ {
 		kind := c % 12
 		switch {
@@ -257,7 +280,7 @@ func engineReqSel(rng *rand.Rand, n int, tier string, o *Out) {
 			// pool: 3..5 hosts with 1..3 ports each (mostly 2-3)
 			var hosts []string
 			switch kind {
-			case 7: // strings without a port / with an empty host / with several colons, as the code treats them
+			case 7: // strings without a port / with an empty host / with several colons (the port follows the last one)
 				hosts = []string{"n", "", "h:1", "k"}
 			case 8: // bracketed IPv6 literals next to ordinary hosts
 				hosts = []string{"[::1]", "[::2]", "[fe80::3]", "a"}
